@@ -126,6 +126,22 @@ def _c19(pid, tier):
 REGISTRY["C19"] = _c19
 
 
+def _c17(pid, tier):
+    from . import c17
+    return c17.check(pid, tier)
+
+
+REGISTRY["C17"] = _c17
+
+
+def _c18(pid, tier):
+    from . import c18
+    return c18.check(pid, tier)
+
+
+REGISTRY["C18"] = _c18
+
+
 def main(argv=None):
     ap = argparse.ArgumentParser()
     ap.add_argument("pid")
